@@ -4,6 +4,7 @@ import (
 	"fmt"
 	"io"
 	"net/http"
+	"net/url"
 
 	"crypto/md5"
 	"encoding/hex"
@@ -63,11 +64,13 @@ func MailboxShowV1(w http.ResponseWriter, req *http.Request, ctx *web.Context) (
 	}
 	attachParts := msg.Attachments()
 	attachments := make([]*model.JSONMessageAttachmentV1, len(attachParts))
+	// Links must honour the configured base path and be valid URLs for any mailbox name.
+	prefix := stringutil.MakePathPrefixer(ctx.WebConfig.BasePath)
 	for i, part := range attachParts {
 		content := part.Content
 		// Example URL: http://localhost/serve/mailbox/swaks/0001/attach/0/favicon.png
-		link := "http://" + req.Host + "/serve/mailbox/" + name + "/" + id + "/attach/" +
-			strconv.Itoa(i) + "/" + part.FileName
+		link := "http://" + req.Host + prefix("/serve/mailbox/"+url.PathEscape(name)+"/"+id+"/attach/"+
+			strconv.Itoa(i)+"/"+url.PathEscape(part.FileName))
 		checksum := md5.Sum(content)
 		attachments[i] = &model.JSONMessageAttachmentV1{
 			ContentType:  part.ContentType,
